@@ -178,7 +178,14 @@ func verifStartedOrCancelled(p *Process) bool {
 // harness-controlled one (so that "the timeout elapsed" becomes a schedulable event).
 var VerifStopCtx func(name string, c context.Context, f context.CancelFunc) (context.Context, context.CancelFunc)
 
+// VerifStopCtxOf, when set, takes precedence over VerifStopCtx and is also given the process
+// instance the stop belongs to (two instances of one name can each have a pending kill timeout).
+var VerifStopCtxOf func(inst any, name string, c context.Context, f context.CancelFunc) (context.Context, context.CancelFunc)
+
 func verifStopCtx(p *Process, c context.Context, f context.CancelFunc) (context.Context, context.CancelFunc) {
+	if VerifStopCtxOf != nil {
+		return VerifStopCtxOf(p, p.getName(), c, f)
+	}
 	if VerifStopCtx == nil {
 		return c, f
 	}
